@@ -295,8 +295,10 @@ def ref_pipeline(requests, ant, el, be, digitize, h=None):
                 pi, _ = iq.pre(blk.imag)
                 # a prefix whose deviation is numerically zero relative to the data (e.g. the
                 # imaginary part of a 2-channel, 1-spectrum chunk) is decided by FFT round-off
+                # ... including "exactly zero here, 1e-16 there": values that are equal in exact arithmetic (a 1-spectrum
+                # x 2-channel chunk of a symmetric input) come out of an FFT equal only to round-off
                 for q in (rq, iq):
-                    if q.cache[1] is not None and 0 < q.cache[1] <= 1e-9 * scale:
+                    if q.cache[1] is not None and scale > 0 and q.cache[1] <= 1e-9 * scale:
                         out["tie_risk"] = True
                 pre_r.append(pr)
                 pre_i.append(pi)
